@@ -38,3 +38,9 @@ add("C20", "canonical-formula extraction from each predicate closure's SSA (path
 add("C17", "who-may-write + must-pass-through typestate of the negation flag, receiver field-effect sets of every builder method (through callees), locality of the Test value each TestOption is invoked on, sibling agreement of setCoercer",
     "Decides that Not() is consumed by exactly the next interface test with the complementary wrapper and not_-prefixed code, that every builder method writes exactly the fields of its role unconditionally, that options only touch a call-local Test which is the one added, and the setCoercer convention. Random builder chains on inputs are not decided; level 'other'.",
     "DESIGN.md section 4, C17")
+add("C02", "exit-edge analysis of every test loop (only ctx.Exit-guarded early exits), decision-path enumeration (one required/coerce issue then return), dominance rule for ctx.Test, who-may-write + return-value provenance for the issue collections",
+    "Decides that a non-catching node runs every test, that required/coerce failures emit exactly one issue and abort only their own node, that an issue is always built from the failing test itself, and that the returned collection is nil iff nothing was added. Multiset equality against an executable spec is not decided; level 'other'.",
+    "DESIGN.md section 4, C02")
+add("C04", "exhaustive decision-path enumeration of the six absence-handling sites with role-classified branch atoms; binding of the parse/validate absence predicates and their canonical formulas; presence-guard rule on provider map lookups",
+    "Decides the decision shape default > required > optional at every site and in both modes, which predicate each mode uses and on what, the predicates' formulas, and that a missing map key is nil at the provider boundary. strings.TrimSpace's notion of blank is library semantics; level 'other'.",
+    "DESIGN.md section 4, C04")
